@@ -321,6 +321,29 @@ def t_difficulty_big_int(N, ncoef, D):
     return True, ""
 
 
+def t_fresh_process(mode):
+    """order-dependent state and precision-dependent code paths, in a fresh interpreter (harness/props/c06_worker.py): 'jit_first' builds
+    steppers inside filter_jit before anything was built eagerly (a memoised helper that captured a tracer breaks every later construction);
+    'f32' compares eager / filter_vmap / filter_jit construction of stiff steppers in a single-precision session"""
+    import json, os, subprocess, sys
+    from . import c06_worker
+    env = dict(os.environ)
+    env.update(JAX_ENABLE_X64="0" if mode == "f32" else "1", JAX_PLATFORMS="cpu", PYTHONPATH=core.REPO + ":" + core.VERIF, PYTHONHASHSEED="0",
+               PYTHONDONTWRITEBYTECODE="1")
+    try:
+        p = subprocess.run([sys.executable, "-m", "harness.props.c06_worker", mode], stdout=subprocess.PIPE, stderr=subprocess.PIPE, text=True, env=env,
+                           cwd=core.VERIF, timeout=900)
+    except subprocess.TimeoutExpired:
+        return False, f"fresh-process worker ({mode}) timed out"
+    if c06_worker.MARK not in p.stdout:
+        return False, f"fresh-process worker ({mode}) produced no result: {p.stderr[-400:]}"
+    res = json.loads(p.stdout.split(c06_worker.MARK)[1])
+    want = "float32" if mode == "f32" else "float64"
+    if res["dtype"] != want:
+        return False, f"worker session is {res['dtype']}, expected {want}"
+    return res["ok"], res["detail"]
+
+
 def t_ctor_single(name, D, N, order, param, index, values, base, seed, light=False):
     """filter_vmap / filter_jit over ONE constructor argument (the others stay Python numbers) vs eager;
     light: one step and the filter_vmap-built batch only"""
@@ -456,7 +479,7 @@ def t_family_rollout(name, D, N, order, n, B, seed):
                      "jit(rollout(batched family)) vs eager loops"))
 
 
-TESTS = dict(difficulty_big_int=t_difficulty_big_int, dealias_boundary=t_dealias_boundary, trace_call=t_trace_call, jit_step=t_jit_step, vmap_states=t_vmap_states, ctor_traced=t_ctor_traced, ctor_single=t_ctor_single,
+TESTS = dict(fresh_process=t_fresh_process, difficulty_big_int=t_difficulty_big_int, dealias_boundary=t_dealias_boundary, trace_call=t_trace_call, jit_step=t_jit_step, vmap_states=t_vmap_states, ctor_traced=t_ctor_traced, ctor_single=t_ctor_single,
              ctor_vector=t_ctor_vector, rollout_nesting=t_rollout_nesting, repeat_nesting=t_repeat_nesting, forced=t_forced,
              family_rollout=t_family_rollout)
 
@@ -591,6 +614,8 @@ def _witness(ctx):
     sel = _selection(ctx, deep)
     for p in FIXED_SINGLE + (FIXED_SINGLE_DEEP if deep else []):
         ctx.check("ctor_single", dict(p, seed=ctx.seed))
+    ctx.check("fresh_process", dict(mode="jit_first"))
+    ctx.check("fresh_process", dict(mode="f32"))
     ctx.check("difficulty_big_int", dict(N=256, ncoef=9, D=1))
     if deep:
         ctx.check("difficulty_big_int", dict(N=512, ncoef=9, D=1))
